@@ -41,7 +41,8 @@ RULE = ("Calendar clauses: enumeration, one case per civil year in -4712..6000, 
         "JD < 400; JD near 5.4e6). Non-trivial: calendar - date after February, year <= 0, "
         "Julian century year or 1582 (every enumerated (date, fraction) is distinct by "
         "construction); sidereal - |T| > 5 centuries or fraction of day within 1e-6 of 0; "
-        "yearsorted - a list that straddles a civil midnight; distinct = distinct case.")
+        "yearsorted - a list that straddles a civil midnight; distinct = distinct case."
+        " dow also takes the first instant of every civil day and its last 1-3 doubles, built from the JDE, judged by the JDE the object reports. On one day in three the object is first asked for other views of itself (UTC date, full date, weekday, sidereal time) before the view under test.")
 ASSUMPTIONS = [
     "oracle: integer Julian Day Number (self-tested against datetime.date.toordinal()); "
     "weekday = (JDN + 1) mod 7 = floor(JDE + 1.5) mod 7",
